@@ -313,6 +313,57 @@ theorem midBody_NO (srcStart : Nat) {dstT : Nat} (hd : HasTrack song dstT) (dst 
   · exact jpSame_NO hfull hsrc _ hd _ _ _ _ _ _ _
   · exact jpSame_NO hfull hsrc _ hd _ _ _ _ _ _ _
 
+/-- the stack test of the same-track loop reads the list of the source track below the length of
+that track -/
+theorem midBodyS_NO (srcStart : Nat) (dst : List Event) (hdst : song.track? srcT = some dst) (isBal : Nat → Bool)
+    (dstPos : Nat) (hpos : dstPos < dst.length) (s : Match × Counter × Counter × Int × Bool) :
+    NO (midBodyS song m (getSA m srcT) srcT srcStart srcT dst isBal dstPos s) := by
+  unfold midBodyS
+  split
+  · rename_i hnone
+    exfalso
+    have h1 := hfull srcT dst hdst
+    have h2 := List.getElem?_eq_none_iff.1 hnone
+    omega
+  · split <;> exact midBody_NO hfull hsrc _ hsrc _ _ _ _
+
+theorem sgo_NO (sa : SA) (l : List Event) : ∀ (i : Nat) (d : Int) (acc : List Bool),
+    i + l.length ≤ sa.eventList.length → NO (sourcePrefixes.go sa l i d acc) := by
+  induction l with
+  | nil => intro i d acc _; exact NO_ok _
+  | cons e rest ih =>
+    intro i d acc hlen
+    simp only [sourcePrefixes.go]
+    simp only [List.length_cons] at hlen
+    split
+    · exact NO_ok _
+    split
+    · rename_i hnone
+      exfalso
+      have h2 := List.getElem?_eq_none_iff.1 hnone
+      omega
+    · split
+      · exact NO_ok _
+      · exact ih _ _ _ (by omega)
+
+theorem sourcePrefixes_NO (src : List Event) (hs : song.track? srcT = some src) (start : Nat) :
+    NO (sourcePrefixes (getSA m srcT) src start) := by
+  unfold sourcePrefixes
+  have : NO (sourcePrefixes.go (getSA m srcT) (src.drop start) start 0 []) := by
+    by_cases h : start ≤ src.length
+    · refine sgo_NO hfull hsrc (getSA m srcT) (src.drop start) start 0 [] ?_
+      have := hfull srcT src hs
+      rw [List.length_drop]
+      omega
+    · -- nothing is read: the phrase starts behind the end of the track
+      rw [List.drop_eq_nil_of_le (by omega)]
+      exact NO_ok _
+  split
+  · rename_i x hx
+    rw [hx] at this
+    exact this
+  · exact NO_ok _
+
 theorem otherBody_NO (srcStart : Nat) {dstT : Nat} (hd : HasTrack song dstT) (isBal : Nat → Bool)
     (dstPos : Nat) (s : Counter × Counter) : NO (otherBody song m srcT srcStart dstT isBal dstPos s) := by
   unfold otherBody
@@ -325,25 +376,34 @@ theorem otherBody_NO (srcStart : Nat) {dstT : Nat} (hd : HasTrack song dstT) (is
   · split <;> exact NO_pure _
   · exact NO_pure _
 
-theorem trackBody_NO (srcStart : Nat) (isBal : Nat → Bool)
+theorem trackBody_NO (hnd : (song.tracks.map (·.1)).Nodup) (srcStart : Nat) (isBal : Nat → Bool)
     (x : Nat × List Event) (hx : x ∈ song.tracks) (s : Match × Counter) :
-    NO (trackBody song m srcT srcStart isBal x s) := by
+    NO (trackBody song m (getSA m srcT) srcT srcStart isBal x s) := by
   have hd := hasTrack_of_mem hx
   unfold trackBody
   split
   · exact NO_pure _
   split
-  · exact NO_bind (NO_forIn _ (fun a b => midBody_NO hfull hsrc _ hd _ _ _ _) _ _) (fun _ _ => NO_pure _)
+  · rename_i heq
+    have hdst : song.track? srcT = some x.2 := by
+      rw [← heq]; exact lookup_of_mem_nodup hnd (by simpa using hx)
+    rw [heq]
+    refine NO_bind (NO_forIn_mem _ _ _ (fun a ha b => midBodyS_NO hfull hsrc _ _ hdst _ _ ?_ _)) (fun _ _ => NO_pure _)
+    obtain ⟨_, h1, h2⟩ := List.mem_range'.1 ha
+    omega
   · exact NO_bind (NO_forIn _ (fun a b => otherBody_NO hfull hsrc _ hd _ _ _) _ _) (fun _ _ => NO_pure _)
 
 theorem finalBody_NO' (x : Nat × Nat) (mt : Match) : NO (finalBody x mt) := by
   unfold finalBody
   split <;> exact NO_pure _
 
-theorem findMatch_NO (srcStart : Nat) : NO (findMatch song m srcT srcStart) := by
+theorem findMatch_NO (hnd : (song.tracks.map (·.1)).Nodup) (srcStart : Nat) :
+    NO (findMatch song m srcT srcStart) := by
   obtain ⟨src, hs⟩ := hsrc
   rw [findMatch_eq song m srcT srcStart src hs]
-  apply NO_bind (NO_forIn_mem _ _ _ (fun a ha b => trackBody_NO hfull ⟨src, hs⟩ _ _ a ha b))
+  apply NO_bind (sourcePrefixes_NO hfull ⟨src, hs⟩ src hs _)
+  intro bal _
+  apply NO_bind (NO_forIn_mem _ _ _ (fun a ha b => trackBody_NO hfull ⟨src, hs⟩ hnd _ _ a ha b))
   intro s _
   exact NO_bind (NO_forIn _ (fun a b => finalBody_NO' hfull ⟨src, hs⟩ _ _) _ _) (fun _ _ => NO_pure _)
 
@@ -506,7 +566,7 @@ theorem findBestMatch_NO {song : Song} {m : SAMap} {subId : Int} (hwf : SongWF s
     refine NO_bind ?_ (fun _ _ => NO_pure _)
     apply NO_forIn
     intro srcPos b2
-    apply NO_bind (findMatch_NO hfull (hasTrack_of_mem ha) _)
+    apply NO_bind (findMatch_NO hfull (hasTrack_of_mem ha) hwf.nodup _)
     intro mt _
     split <;> exact NO_pure _
   · intro best hloop
